@@ -66,10 +66,11 @@ Print Assumptions C11_range_intersect_exact.
 Theorem C11_ranges_merge_overflow_refuted : exists l k,
   sorted_off l /\ in_ranges l k /\ ~ in_ranges (merge_ranges l) k.
 Proof.
-  exists [mkR 0 4; mkR 2 (W64 - 1)], 3. split; [cbn; lia|]. split.
-  - apply Exists_cons_hd. unfold inr. cbn. lia.
-  - vm_compute. intros H. inversion H as [? ? I | ? ? I]; [|inversion I].
-    unfold inr in I. cbn in I. lia.
+  exists [mkR 0 4; mkR 2 (W64 - 1)], 10. split; [cbn; lia|]. split.
+  - apply Exists_cons_tl, Exists_cons_hd. unfold inr, W64. cbn [roff rlen]. lia.
+  - assert (E : merge_ranges [mkR 0 4; mkR 2 (W64 - 1)] = [mkR 0 4]) by (vm_compute; reflexivity).
+    rewrite E. intros H. inversion H as [? ? I | ? ? I]; [|inversion I].
+    unfold inr in I. cbn [roff rlen] in I. lia.
 Qed.
 Print Assumptions C11_ranges_merge_overflow_refuted.
 
@@ -257,14 +258,14 @@ Proof. split; [apply distinguishableb_spec; reflexivity|]. split; [apply no_over
 
 Example C11_ex_sortmerge :
   sortmerge_rel xs [ mkRef xImg MPhys [mkR 4294967288 6];
-                     mkRef xRaw MNil [mkR 0 5; mkR 5 0];
-                     mkRef xReg (MCustom 1 true 100) [mkR 0 3] ].
+                     mkRef xReg (MCustom 1 true 100) [mkR 0 3];
+                     mkRef xRaw MNil [mkR 0 5] ].
 Proof. apply (refs_sm_rel [1; 3; 0; 2]%nat). vm_compute. reflexivity. Qed.
 
 Example C11_ex_exclude :
   exclude_rel xs xexc [ mkRef xImg MPhys [mkR 4294967288 2; mkR 4294967293 1];
-                        mkRef xRaw MNil [mkR 0 1; mkR 4 1];
-                        mkRef xReg (MCustom 1 true 100) [mkR 0 3] ].
+                        mkRef xReg (MCustom 1 true 100) [mkR 0 3];
+                        mkRef xRaw MNil [mkR 0 1; mkR 4 1] ].
 Proof. apply (refs_exclude_rel [1; 3; 0; 2]%nat [0; 1]%nat). vm_compute. reflexivity. Qed.
 
 Example C11_ex_bytes :
